@@ -99,6 +99,13 @@ static int mode_transfer(int cases, int max_nr, int max_nt)
                 I.applyProlongation(coarse, fine, o2, from_rowmajor(gc, xt));
                 printf("TR op=prolong kind=linear_r threads=1 x=%s out=%s\n", hexvec(xr).c_str(), hexvec(to_rowmajor(gf, o1)).c_str());
                 printf("TR op=prolong kind=linear_t threads=1 x=%s out=%s\n", hexvec(xt).c_str(), hexvec(to_rowmajor(gf, o2)).c_str());
+                // C09 probe: a cubic in r sampled at the coarse nodes; the FMG interpolation must return the cubic at every fine node
+                // whose radial rule is the four-point (cubic) one
+                std::vector<double> xq(gc.numberOfNodes());
+                for (int i = 0; i < gc.nr(); i++) for (int j = 0; j < gc.ntheta(); j++) { double r = gc.radius(i); xq[(size_t)i * gc.ntheta() + j] = 1.0 + r * (1.0 + r * (-2.0 + 3.0 * r)); }
+                Vector<double> o3(gf.numberOfNodes());
+                I.applyFMGInterpolation(coarse, fine, o3, from_rowmajor(gc, xq));
+                printf("TR op=fmg kind=cubic_r threads=1 x=%s out=%s\n", hexvec(xq).c_str(), hexvec(to_rowmajor(gf, o3)).c_str());
             }
             up("prolong", [&](Vector<double>& o) { I.applyProlongation(coarse, fine, o, xcv); });
             up("prolong0", [&](Vector<double>& o) { I.applyProlongation0(coarse, fine, o, xcv); });
